@@ -1,10 +1,11 @@
 """C10 — population bookkeeping on spectra equals explicit index arithmetic, keeps labels.
 
 K : Spectrum.marginalize / filter_pops / reorder_pops / combine_two_pops / combine_pops / scramble_pop_ids / fold / unfold /
-    _project_one_axis and Misc.combine_pops on random spectra vs the exact-rational Lean model (Model/PopOps.lean through Driver/PopOps.lean):
+    _project_one_axis / project and Misc.combine_pops on random spectra vs the exact-rational Lean model (Model/PopOps.lean through Driver/PopOps.lean):
     shape, mask, data at unmasked entries, labels, folded flag, NaN cells (scramble), "raises" for rejected arguments.
 L3: the property statement evaluated directly on the implementation with explicit loops over numpy.ndindex (no Lean, no model):
-    explicit re-indexing, totals, labels, commutation with fold and with project, flags honoured.
+    explicit re-indexing, totals, labels, commutation with fold and with project, flags honoured; the PROVED general forms of
+    "commutes with projection" with masks included (commute_project_exact) and the mixture identity for the merged axis (merged_split).
 """
 import math, itertools
 from fractions import Fraction
@@ -853,11 +854,10 @@ def run(chk, ctx):
                 'non-trivial = distinct (operation, #populations, #axes touched, folded, labelled, flag, mask kind)'
                 % ('300 (quick) / 1000 (thorough)'))
     chk.unproved = [
-        'commutation with projection is proved for one summed axis vs one projected axis (any kernel; unmasked data); the assembly to several axes, and reorder/combine/scramble vs projection (project(scramble) = re-deal(project(pool))) are validated numerically on the implementation (L3)',
-        'mask bookkeeping of the folded paths (unfold -> sum -> mask corners -> fold) is validated by K; the fold-commutation theorems are about data',
+        'commutation with projection is proved for the loops and the public functions on UNFOLDED spectra: marginalize (any set of axes, any admissible sizes, spectrum without masked entries, both mask_corners), reorder_pops and combine_two_pops/combine_pops on untouched axes (any mask); validated numerically only (L3): the same commutations for folded input (unfold -> project -> fold), for corner-masked input of marginalize, scramble_pop_ids vs projection (project(scramble) = re-deal(project(pool))), and the lifting to n-D spectra of the proved weight identity "project the merged population = hypergeometric mixture over the splits" (merged_split)',
+        'mask bookkeeping of the folded paths: proved end to end for marginalize of fold(U), U without masked entries (C10_marginalize_folded_path); the folded paths of scramble_pop_ids and project, and folded spectra with additional masked entries, are validated by K',
         'the loops of the implementation are tied to the model by correspondence (K); translated (T) are only the three list programs and the mask statement of combine_two_pops, the filter_pops call and the Misc.combine_pops table',
-        'direction "result masked => some contributor masked or corner" of iterated combine_pops is only K-validated (proved: unmasked result => no masked contributor and data = explicit sum)',
-        'round-off: floats vs exact rationals compared at 1e-9 relative to the array scale; binomials via exp(gammaln) in scramble_pop_ids',
+        'round-off: floats vs exact rationals compared at 1e-9 relative to the array scale; binomials via exp(gammaln) in scramble_pop_ids and _cached_projection',
     ]
     chk.assumptions += ['numpy masked-array semantics (ma.sum masks a cell iff all contributors are masked and counts masked entries as 0; '
                         'arithmetic does not accumulate into masked cells) are part of the model and checked by K only']
